@@ -23,7 +23,7 @@ func verifHarness_C02_sysNoRetries() {
 	if vTier() > 0 {
 		c.delay = 3
 	}
-	vClass("retryMax=0,two-partitions-one-broker")
+	c.class = "retryMax=0,two-partitions-one-broker"
 	r := vRunProducer(c)
 	r.assertC02()
 	vReach()
@@ -39,7 +39,7 @@ func verifHarness_C02_sysWaitForSpace() {
 	if vTier() > 0 {
 		c.n, c.faults = 4, 2
 	}
-	vClass(vSprintf("waitForSpace,retryMax=%d", c.retryMax))
+	c.class = vSprintf("waitForSpace,retryMax=%d", c.retryMax)
 	r := vRunProducer(c)
 	r.assertC02()
 	r.assertC01()
